@@ -295,6 +295,7 @@ def classify(woven, res):
                 'overflow' if 'arithmetic' in msg else 'decreases' if 'decreases' in msg or 'termination' in msg else 'other')
         detail = (clause or prim or {}).get('text', '')[:80]
         failures.append({'obligation': f'{owner}#{kind}[{detail}]', 'owner': owner, 'kind': kind, 'message': msg,
+                         'in_source': bool(prim and prim['kind'] == 'source'),
                          'spans': descr, 'rendered': (d.get('rendered') or '')[:2500]})
     return failures, hard
 
